@@ -46,6 +46,7 @@ class World(object):
     def __init__(self, world='LIVE'):
         self.world = world
         self.journal = []       # ('body', 'in'|'out', decl index, world, sid, args-copy)
+        self.stale_exceptions = []
         self.call_copies = []   # ('v', sid, deep copy at call time) | ('e', sid, type name)
         self.outcalls = []      # (output decl index, args, kwargs) journalled at the call site, copies
         self.sites = {}         # sid -> ('v', value) | ('e', exception)
@@ -267,6 +268,15 @@ def build_class(prog, rec, W, decorated=True):
             return W.call_copies[-1]
         except Exception as e:  # pylint: disable=broad-except
             W.sites[s['sid']] = ('e', e)
+            if getattr(W, 'mutate_exceptions', False):
+                # the code that caught the exception annotates it in place (retry loops do); a later raise of the same
+                # recorded exception must not carry the annotation
+                if getattr(e, 'verif_annotations', None):
+                    W.stale_exceptions.append((s['sid'], list(e.verif_annotations)))
+                try:
+                    e.verif_annotations = getattr(e, 'verif_annotations', []) + ['seen at %s' % s['sid']]
+                except Exception:  # pylint: disable=broad-except
+                    pass
             if s.get('reraise'):
                 raise
             if s.get('reraise_framework'):
